@@ -29,7 +29,7 @@ VARIANTS = {
     # name: (compiler, flags for instrumented TUs, link flags, engines)
     "asan":   ("clang++", ["-O1", "-g", "-fsanitize=address,undefined", "-fno-sanitize-recover=undefined"],
                ["-fsanitize=address,undefined"], ["e1", "e2", "e3", "e4"]),
-    "tsan":   ("clang++", ["-O1", "-g", "-fsanitize=thread"], ["-fsanitize=thread"], ["e1"]),
+    "tsan":   ("clang++", ["-O1", "-g", "-fsanitize=thread"], ["-fsanitize=thread"], ["e1", "e2"]),
     "plain":  ("g++", ["-O2"], ["-pthread"], ["e4", "e1", "e2", "e3"]),
     "ssse3":  ("g++", ["-O2", "-mssse3"], ["-pthread"], ["e4"]),
     "avx512": ("g++", ["-O2", "-mavx512bw", "-mavx512vl"], ["-pthread"], ["e4", "e3", "e2"]),
@@ -111,6 +111,8 @@ def build_variant_with(variant, comp):
     if variant == "tsan":
         # also uninstrumented: schedule points at every 8-/32-bit atomic access (see sim/atomwrap.cpp)
         jobs.append(("atomwrap.o", [comp] + COMMON + ["-O2", "-c", os.path.join(SIM, "atomwrap.cpp"), "-o", os.path.join(d, "atomwrap.o")]))
+    if variant == "tsan" and "e2" in engines:
+        jobs.append(("mutexdepth.o", [comp] + COMMON + ["-O2", "-c", os.path.join(SIM, "mutexdepth.cpp"), "-o", os.path.join(d, "mutexdepth.o")]))
     if "e1" in engines:
         # also uninstrumented: mutex / call_once / static-guard waits become yields (see sim/blockwrap.cpp)
         jobs.append(("blockwrap.o", [comp] + COMMON + ["-O2", "-c", os.path.join(SIM, "blockwrap.cpp"), "-o", os.path.join(d, "blockwrap.o")]))
@@ -138,6 +140,12 @@ def build_variant_with(variant, comp):
                 objs.append(os.path.join(d, "atomwrap.o"))
                 wrap += ["-Wl," + ",".join(f"--wrap=__tsan_atomic{w}_" + f for w in (8, 32) for f in
                                           ("load", "store", "exchange", "compare_exchange_strong", "compare_exchange_weak", "compare_exchange_val"))]
+        if e == "e2" and variant == "tsan":
+            # the sequential enumeration of two concurrent setters needs a schedule point at every atomic access
+            objs.append(os.path.join(d, "atomwrap.o"))
+            objs.append(os.path.join(d, "mutexdepth.o"))
+            wrap = ["-Wl,--wrap=pthread_mutex_lock,--wrap=pthread_mutex_unlock", "-Wl," + ",".join(f"--wrap=__tsan_atomic{w}_" + f for w in (8, 32) for f in
+                                      ("load", "store", "exchange", "compare_exchange_strong", "compare_exchange_weak", "compare_exchange_val"))]
         r = sh([comp] + lflags + objs + wrap + ["-o", os.path.join(d, e)])
         if r.returncode != 0:
             raise RuntimeError(f"link of {e} ({variant}) failed:\n{r.stdout[-4000:]}")
@@ -508,6 +516,7 @@ def configs_for(prop, tier):
                 ("tsan", "e1", ["--mode", "a", "--fault", "none", "--maxthreads", mt, "--mix", "api", "--cold", "2"], 8 * t, "c13_cold_tsan"),
                 ("asan", "e1", ["--mode", "a", "--fault", "none", "--maxthreads", mt, "--mix", "api", "--cold", "2"], 5 * t, "c13_cold_asan"),
                 ("asan", "e1", ["--mode", "x", "--cold", "1"], 4 * t, "c13_exit_asan"),
+                ("tsan", "e2", ["--prop", "C13", "--two", "1"], 3 * t, "c13_two_setters_tsan"),
                 ("plain", "e2", ["--prop", "C13"], 8 * t, "c13_limit_enum_plain"),
                 ("asan", "e2", ["--prop", "C13"], 6 * t, "c13_limit_enum_asan"),
                 ("tsan", "e1", ["--mode", "b", "--maxthreads", mt], 8 * t, "c13_b_tsan"),
@@ -543,7 +552,9 @@ RULE = {
            "failure, bounded stall, spin-clock jump. Sub-batch limit_enum (engine e2, sequential): for seeded histories the position "
            "of ONE concurrent limit store is enumerated - every ordered pair of a boundary set of limit values x every gap between "
            "two limit reads of the call (counter limit_store_positions_enumerated) - and the result must be the one under either "
-           "value. Non-trivial: the initialisation protocol ran (mode a) or limit stores interleaved with calls (mode b, "
+           "value. Sub-batch two_setters (engine e2, ThreadSanitizer build, sequential): one whole set_max_input_length(v2) is placed "
+           "before every atomic access of another set_max_input_length(v1), for every ordered pair of about twenty values; afterwards "
+           "can_parse/parse/get must behave as under v1 alone or v2 alone (counter two_setter_interleavings_enumerated). Non-trivial: the initialisation protocol ran (mode a) or limit stores interleaved with calls (mode b, "
            "limit_enum); distinct = distinct (operations, shared-state schedule signature) pairs.",
     "C18": "the same seeds executed in each supported x86-64 build; per-run observation hashes must agree. Non-trivial: all runs; "
            "distinct = distinct op text.",
@@ -866,7 +877,7 @@ def determinism():
     outdir = os.path.join(BUILD, "out", "determinism")
     shutil.rmtree(outdir, ignore_errors=True)
     cases = [("asan", "e3", ["--prop", "C01"]), ("asan", "e3", ["--prop", "C14"]), ("asan", "e3", ["--prop", "C15"]),
-             ("asan", "e2", ["--prop", "C09"]), ("asan", "e2", ["--prop", "C08"]), ("asan", "e2", ["--prop", "C13"]),
+             ("asan", "e2", ["--prop", "C09"]), ("asan", "e2", ["--prop", "C08"]), ("asan", "e2", ["--prop", "C13"]), ("tsan", "e2", ["--prop", "C13", "--two", "1"]),
              ("asan", "e1", ["--mode", "a"]), ("asan", "e1", ["--mode", "a", "--fault", "ta"]),
              ("asan", "e1", ["--mode", "a", "--fault", "stall"]), ("asan", "e1", ["--mode", "a", "--fault", "starve"]),
              ("asan", "e1", ["--mode", "b"]), ("tsan", "e1", ["--mode", "a"]), ("tsan", "e1", ["--mode", "b"]),
